@@ -12,7 +12,9 @@ NASTY = ['plain text', 'a[b[0]]>1 and <x>]]><admin>1</admin><![CDATA[', '<script
          '&<"\'' * 1500, 'a' * 2043 + '&&&&' + 'b' * 4000, ('<tag attr="v">' + "it's & more ") * 400]
 ACCEPTS = [None, 'text/html', 'application/json', 'application/xml', 'text/plain', '*/*', 'text/*', 'application/*',
            'text/html;q=0.2, application/json;q=0.9', 'image/png', 'image/png, */*;q=0.1', 'application/json;q=0', '', 'garbage;;q=x, ,',
-           'TEXT/HTML', 'text/html, application/xhtml+xml, application/xml;q=0.9, */*;q=0.8']
+           'TEXT/HTML', 'text/html, application/xhtml+xml, application/xml;q=0.9, */*;q=0.8',
+           # types that are NOT among the four formats, alone and ahead of one that is
+           'application/xhtml+xml', 'application/xhtml+xml, text/html;q=0.9', 'text/xml', 'text/xml, application/json;q=0.5', 'text/*']
 TOKENS = ['<script>XSS1', '<img src=x onerror=XSS2', "' onmouseover='XSS3", '<body>XSS4', '<![CDATA[XSS5', '<!-- XSS6', '"onclick="XSS7']
 SUPPORTED = {'text/html': 'html', 'application/json': 'json', 'text/plain': 'text', 'application/xml': 'xml'}
 
